@@ -1305,7 +1305,8 @@ namespace bluetoe {
             template< typename Service >
             void each()
             {
-                if ( !stoped_
+                // secondary services are not subject to the discovery of primary services
+                if ( !stoped_ && !Service::is_secondary
                     && ( starting_index_ != details::invalid_attribute_index && starting_index_ <= index_ )
                     && details::handle_index_mapping< Server >::handle_by_index( index_ ) <= ending_handle_ )
                 {
@@ -1592,7 +1593,9 @@ namespace bluetoe {
             {
                 using mapping = details::handle_index_mapping< Server >;
 
-                if ( ( starting_index_ != details::invalid_attribute_index && starting_index_ <= index_ )
+                // secondary services are not subject to the discovery of primary services
+                if ( !Service::is_secondary
+                    && ( starting_index_ != details::invalid_attribute_index && starting_index_ <= index_ )
                     && mapping::handle_by_index( index_ ) <= ending_handle_ )
                 {
                     const details::attribute& attr = Server::attribute_at( index_ );
